@@ -73,6 +73,22 @@ def observe (s : Seq) (names : Nat) (probes : List Item) : Json :=
 def addProbes (probes : List Item) (xs : List Item) : List Item :=
   xs.foldl (fun acc x => if acc.any (·.uid == x.uid) then acc else acc ++ [x]) probes
 
+/-- pool-level operation: "clone" / "attach" / anything else on member "seq" (default 0) -/
+def poolOpOfJson (j : Json) : Except String (PoolOp × List Item) := do
+  let o ← getStr j "op"
+  let i := match j.getObjVal? "seq" with
+    | .ok v => (v.getNat?.toOption).getD 0
+    | .error _ => 0
+  match o with
+  | "clone" => pure (.clone i, [])
+  | "attach" => pure (.attach i, [])
+  | _ => do
+    let (op, items) ← opOfJson j
+    pure (.on i op, items)
+
+def observePool (pool : List Seq) (names : Nat) (probes : List Item) : Json :=
+  Json.arr (pool.map (fun s => observe s names probes)).toArray
+
 def history (j : Json) : Except String Json := do
   let root ← getBool j "root"
   let sr ← getBool j "sr"
@@ -80,7 +96,7 @@ def history (j : Json) : Except String Json := do
   let init ← itemsOfJson (← j.getObjVal? "init")
   let names ← getNat j "names"
   let probe ← itemOfJson (← j.getObjVal? "probe")
-  let ops ← (← getArr j "ops").toList.mapM opOfJson
+  let ops ← (← getArr j "ops").toList.mapM poolOpOfJson
   let probes := addProbes [probe] init
   let c := if via == "from_sequence" then fromSequence init root sr
            else if via == "setattr" then construct init false true
@@ -88,12 +104,12 @@ def history (j : Json) : Except String Json := do
   match c with
   | .error e => pure (okJson (Json.arr #[Json.mkObj [("err", Json.str e.toString), ("obs", Json.null)]]))
   | .ok s0 =>
-    let first := Json.mkObj [("err", Json.null), ("obs", observe s0 names probes)]
-    let (_, _, out) := ops.foldl (fun (acc : Seq × List Item × Array Json) (opx : Op × List Item) =>
-      let (s, pr, out) := acc
+    let first := Json.mkObj [("err", Json.null), ("obs", observePool [s0] names probes)]
+    let (_, _, out) := ops.foldl (fun (acc : List Seq × List Item × Array Json) (opx : PoolOp × List Item) =>
+      let (pool, pr, out) := acc
       let pr' := addProbes pr opx.2
-      let (s', e) := step s opx.1
-      (s', pr', out.push (Json.mkObj [("err", errJson e), ("obs", observe s' names pr')]))) (s0, probes, #[first])
+      let (pool', e) := poolStep pool opx.1
+      (pool', pr', out.push (Json.mkObj [("err", errJson e), ("obs", observePool pool' names pr')]))) ([s0], probes, #[first])
     pure (okJson (Json.arr out))
 
 /-- slice resolution alone: positions in slice order, for the exhaustive comparison with CPython -/
